@@ -1,13 +1,18 @@
 """C17 — Persistent parameters: crash-atomic, exact round trip, retried after failure.
 
 Runs real `PersistentMixin` modules on a fault-injecting file layer (`FaultFS`, installed by assigning
-`frappy.persistent.open` / `frappy.persistent.os` from outside), records every file operation and a
-snapshot of the directory after each one, and lets the Lean side (model `Small/Persist`, monitors `Spec/C17`)
-compare and judge.  Nothing about the property is decided here."""
+`frappy.persistent.open` / `frappy.persistent.os` from outside, and - while a bench is alive - as `builtins.open`, `io.open`,
+`os.rename/replace/remove/unlink`, so that pathlib, shutil etc. go through it, too).  The code gets Python's own buffered text file; what is
+logged, may fail and is followed by a snapshot of the directory (read through an independent descriptor) are the
+operations that reach the operating system: open, every write of the buffered writer on the raw file, its close,
+os.rename, os.remove.  The Lean side (model `Small/Persist`, monitors `Spec/C17`) compares and judges.  Nothing about the
+property is decided here."""
 import builtins
+import io
 import json
 import os
 import shutil
+import sys
 import tempfile
 from pathlib import Path
 
@@ -15,26 +20,36 @@ from check import Result
 from vlib.shrink import ddmin
 
 META = {
-    'level_text': 'Theorems for every chunking of the written text, every crash point, every single I/O fault with any partial write, '
-                  'every history of set/save/writeInit/load/factory-reset actions: crash_atomic, fault_atomic (target = complete old or '
-                  'complete new snapshot, tmp removed), save_outcome, failed_save_retried, believed_on_disk and believed_on_disk_world '
+    'level_text': 'Theorems for every chunking in which the written text reaches the file descriptor, every crash point, every I/O fault '
+                  'with any partial write (and any further, possibly failing, writes of the file object when it is closed on the way out: '
+                  'disk full), every history of set/save/writeInit/load/factory-reset actions: crash_atomic, fault_atomic (target = complete old or '
+                  'complete new snapshot, tmp removed - unless the remove of the clean-up fails as well: double_fault_target_complete), save_outcome, failed_save_retried, believed_on_disk and believed_on_disk_world '
                   '(persistentData always equals what a restart would read - for the save machine and for the whole module machine), '
-                  'saved_when_done / save_leaves_current_file, startup_file_current, roundtrip (load after save restores every persistent '
-                  'parameter under the codec law import(export v) = v), cfg_precedence, reload_restores (loadParameters() in any state '
-                  'restores every usable stored value unless the write method refuses it), reload_from_this_run (start-up, any history, '
-                  'then loadParameters(): every persistent parameter ends with a value of this run - a value an earlier run stored never '
-                  'overrides what start-up decided from the configuration), reload_after_startup_keeps_values, load_total / '
-                  'unusable_entry_removes_only_itself.  The model is tied to frappy/persistent.py by a correspondence run on real modules '
-                  'over all datatypes under fault injection; the Lean monitors judge every recorded directory snapshot, retry trial, '
-                  'restart, and every loadParameters() of the histories and on damaged files.',
-    'level_note': 'Durability is modelled at the granularity of Python-level file operations (open, each write, close, rename, remove) with '
-                  'every write reaching the file at once and an atomic rename; the code issues no fsync, and power-loss reordering of data '
-                  'and metadata is NOT modelled.  Saves are single-threaded in the model (two threads saving the same module concurrently '
-                  'share one tmp file; not covered).  json, the datatypes and Python == are oracles of the model (tables recorded from the '
-                  'real functions).  The reload clauses (ReloadRestores, ReloadFromThisRun) extend the statement\'s loading / precedence '
-                  'clauses to loadParameters(); a parameter without usable stored entry is bound only by ReloadFromThisRun.',
+                  'saved_when_done / save_leaves_current_file, auto_save_stays_registered (the callback that saves on every update of an '
+                  '`auto` parameter stays registered whatever fails) and failed_auto_save_retried (after any history, failed automatic saves '
+                  'included, the next undisturbed update of an `auto` parameter leaves a current file), startup_file_current, roundtrip (load after '
+                  'save restores every persistent parameter under the codec law import(export v) = v), cfg_precedence, reload_restores '
+                  '(loadParameters() in any state restores every usable stored value unless the write method refuses it), reload_from_this_run '
+                  '(start-up, any history, then loadParameters(): every persistent parameter ends with a value of this run - a value an earlier '
+                  'run stored never overrides what start-up decided from the configuration), reload_after_startup_keeps_values, load_total / '
+                  'unusable_entry_removes_only_itself.  The model is tied to frappy/persistent.py and the callback loop of '
+                  'Module.announceUpdate by a correspondence run on real modules over all datatypes: the code writes through Python\'s own '
+                  'buffered text file onto a raw file whose open / write / close, and os.rename / os.remove, are logged, can fail, and are each '
+                  'followed by a snapshot of the directory taken by an independent reader; the Lean monitors judge every snapshot, retry trial '
+                  '(explicit and automatic saves), restart, and every loadParameters() of the histories and on damaged files.',
+    'level_note': 'Durability is modelled at the granularity of the operations that reach the operating system (open, each write of the '
+                  'buffered writer on the descriptor, close, rename, remove), for the default buffering and for small buffers; rename is atomic; '
+                  'the code issues no fsync, and page-cache write-back / power-loss reordering of data and metadata is NOT modelled.  Faults: one '
+                  'failing operation per save, or a failing write followed by failing writes (disk full), each optionally with a failing remove in '
+                  'the clean-up; other combinations of two failing operations are not injected.  Saves are single-threaded in the model (two threads saving the same module concurrently '
+                  'share one tmp file; not covered).  json, the datatypes, Python == and the chunking done by Python\'s io layers are oracles of the '
+                  'model (tables recorded from the real functions).  The reload clauses (ReloadRestores, ReloadFromThisRun) extend the '
+                  'statement\'s loading / precedence clauses to loadParameters(); a parameter without usable stored entry is bound only by '
+                  'ReloadFromThisRun.',
     'trusted': [
-        'durability granularity: Python file operations, write-through, atomic os.rename, no reordering (no fsync in the code; power loss not modelled)',
+        'durability granularity: descriptor-level operations as issued by Python\'s io stack, atomic os.rename, no reordering (no fsync in the '
+        'code; power loss not modelled); the file object contract "close() has handed everything written to the descriptor, or raises" is '
+        'checked on every recorded save, not proved',
         'json.dump/json.load, datatype import_value/export_value/validate are oracles; the laws assumed of them by roundtrip and the reload '
         'theorems - import(export v) = v, and validate hands back unchanged (or refuses) a value an import produced - are tested on every '
         'imported value of every case (law.* counters; a broken law fails the check)',
@@ -42,15 +57,22 @@ META = {
         'import respects Python == of decoded files (hypothesis of reload_from_this_run, used only when a save found nothing to write); '
         'exercised through the monitors, not tested separately',
         'driver glue: Python == on decoded JSON is `pyEq` (True == 1, 1.0 == 1, exact decimal comparison)',
-        'Module.__init__ (values, given flags, configured writes) is an input of the model (C10)',
+        'Module.__init__ (values, given flags, configured writes) is an input of the model (C10); the persistent / auto flags given to the '
+        'model come from the declaration (class definition and configuration), not from the module',
+        'announceUpdate is modelled for updates that are not omitted (the harness clock advances 10 s per reading): valid values, and '
+        'updates without valid value (read error, refused value), which save nothing',
         'an OSError while *reading* the file and a failing pathlib mkdir are outside the statement and not injected',
     ],
     'modelled_not_verified': ['json', 'frappy.datatypes import_value/export_value/validate', 'Module.__init__/_handle_writes',
-                              'os.rename atomicity'],
+                              'os.rename atomicity', 'io.TextIOWrapper / io.BufferedWriter (chunking, behaviour of close() after a failed write)'],
     'assumptions': ['one save at a time per module', 'write methods accept and return the value'],
 }
 
 TARGET, TMP = 'T', 'T.tmp'
+
+# the real functions, taken before anything is replaced: the file layer itself and everything the harness does on its own
+# behalf (snapshots, preparing a directory) use these
+_open, _rename, _replace, _remove, _unlink = builtins.open, os.rename, os.replace, os.remove, os.unlink
 
 
 # ----------------------------------------------------------------------------------------
@@ -107,10 +129,11 @@ class Injected(OSError):
 class FaultFS:
     """file layer seen by frappy.persistent: logs, injects one OSError, snapshots the directory"""
 
-    def __init__(self, root):
+    def __init__(self, root, buf=None):
         self.root = str(root)
         self.pdir = os.path.join(self.root, 'persistent')
         self.tname = 'eq.m.json'
+        self.buf = buf         # None: the buffering of the builtin open; [buffer size, text chunk size]: a smaller one
         self.reset()
 
     def reset(self, fault=None):
@@ -118,12 +141,13 @@ class FaultFS:
         self.snaps = []        # after each write-side event: (target, tmp, listing)
         self.reads = []
         self.n = 0
-        self.fault = fault     # {'idx': k, 'part': fraction}
+        self.fault = fault     # {'idx': k, 'part': fraction, 'sticky': bool, 'cleanup': bool}
         self.fired = False
 
     # -- helpers
     def canon(self, p):
-        p = os.path.relpath(str(p), self.pdir)
+        p = str(p)
+        p = p[len(self.pdir) + 1:] if p.startswith(self.pdir + os.sep) else os.path.relpath(p, self.pdir)
         if p == self.tname:
             return TARGET
         if p == self.tname + '.tmp':
@@ -132,14 +156,15 @@ class FaultFS:
 
     def content(self, name):
         try:
-            with builtins.open(os.path.join(self.pdir, name), 'rb') as f:
+            with _open(os.path.join(self.pdir, name), 'rb') as f:
                 return f.read()
         except OSError:
             return None
 
     def state(self):
+        names = {self.tname: TARGET, self.tname + '.tmp': TMP}
         try:
-            listing = sorted(self.canon(os.path.join(self.pdir, x)) for x in os.listdir(self.pdir))
+            listing = sorted(names.get(x, x) for x in os.listdir(self.pdir))
         except OSError:
             listing = []
         return (self.content(self.tname), self.content(self.tname + '.tmp'), listing)
@@ -150,11 +175,11 @@ class FaultFS:
             path = os.path.join(self.pdir, name)
             if c is None:
                 try:
-                    os.remove(path)
+                    _remove(path)
                 except OSError:
                     pass
             else:
-                with builtins.open(path, 'wb') as f:
+                with _open(path, 'wb') as f:
                     f.write(c)
 
     def _event(self, ev, action, partial=None):
@@ -164,11 +189,20 @@ class FaultFS:
         self.log.append(ev)
         try:
             if self.fault is not None and self.fault['idx'] == k and not self.fired:
-                self.fired = True
+                self.fired = ev[0]
                 if partial is not None:
                     partial(ev)
                 ev.append('FAULT')
                 raise Injected(5, 'injected I/O error')
+            if self.fired and ev[0] == 'remove' and self.fault.get('cleanup'):
+                # a second fault, in the clean-up path: the remove of the `finally` fails as well
+                ev.append('FAULT')
+                raise Injected(5, 'injected I/O error in the clean-up')
+            if self.fired == 'write' and ev[0] == 'write' and self.fault.get('sticky'):
+                # the disk is full: a write failed, and so does every later one (nothing of it reaches the file)
+                ev[2] = ''
+                ev.append('FAULT')
+                raise Injected(28, 'injected: no space left on device')
             return action()
         finally:
             self.snaps.append(self.state())
@@ -178,53 +212,147 @@ class FaultFS:
         self.reads.append(['makedirs', self.canon(p)])
         return os.makedirs(p, mode, exist_ok)
 
-    def rename(self, a, b):
-        return self._event(['rename', self.canon(a), self.canon(b)], lambda: os.rename(a, b))
+    def inside(self, p):
+        try:
+            return os.fspath(p).startswith(self.pdir + os.sep)
+        except TypeError:      # a file descriptor, bytes ...
+            return False
 
-    def remove(self, p):
-        return self._event(['remove', self.canon(p)], lambda: os.remove(p))
+    def rename(self, a, b, **kw):
+        """os.rename / os.replace (and with them pathlib's rename / replace, shutil.move within a file system)"""
+        if not (self.inside(a) or self.inside(b)):
+            return _rename(a, b, **kw)
+        return self._event(['rename', self.canon(a), self.canon(b)], lambda: _rename(a, b, **kw))
+
+    def remove(self, p, **kw):
+        """os.remove / os.unlink (and pathlib's unlink)"""
+        if not self.inside(p):
+            return _remove(p, **kw)
+        return self._event(['remove', self.canon(p)], lambda: _remove(p, **kw))
+
+    replace = rename
+    unlink = remove
 
     def __getattr__(self, name):
         return getattr(os, name)
 
-    # -- `open`
-    def open(self, p, mode='r', **kwds):
-        if 'w' in mode or 'a' in mode or '+' in mode:
-            return self._event(['open', self.canon(p)], lambda: _WFile(self, p, mode, kwds))
+    # -- `open` (the builtin, io.open and with them pathlib's open / write_text / write_bytes, shutil's copies)
+    def open(self, p, mode='r', buffering=-1, encoding=None, errors=None, newline=None, closefd=True, opener=None):
+        if not self.inside(p):
+            return _open(p, mode, buffering, encoding, errors, newline, closefd, opener)
+        if 'w' in mode or 'a' in mode or '+' in mode or 'x' in mode:
+            return self._event(['open', self.canon(p)],
+                               lambda: self._wfile(p, mode, {'encoding': encoding, 'errors': errors, 'newline': newline}))
         self.reads.append(['open', self.canon(p)])
-        return builtins.open(p, mode, **kwds)
+        return _open(p, mode, buffering, encoding, errors, newline, closefd, opener)
+
+    def _wfile(self, p, mode, kwds):
+        """what the builtin `open` returns for writing - Python's own text layer and buffered writer - on a raw file whose
+        `write` and `close` (the operations that reach the file system) are logged, may fail, and are followed by a snapshot.
+        Nothing is flushed on behalf of the code: what is on disk between two operations is what the real file object put there."""
+        raw = _Raw(self, p, mode.replace('t', '').replace('b', ''))
+        try:
+            bs, chunk = self.buf if self.buf else (io.DEFAULT_BUFFER_SIZE, None)
+            buffered = io.BufferedWriter(raw, bs)
+            if 'b' in mode:
+                return buffered
+            text = io.TextIOWrapper(buffered, encoding=kwds.get('encoding'), errors=kwds.get('errors'), newline=kwds.get('newline'))
+            if chunk:
+                text._CHUNK_SIZE = chunk      # pylint: disable=protected-access
+            return text
+        except Exception:
+            io.FileIO.close(raw)
+            raise
 
 
-class _WFile:
-    def __init__(self, fs, p, mode, kwds):
+class _Raw(io.FileIO):
+    """the file descriptor level: `write` = bytes handed to the operating system, `close` = the descriptor is released"""
+
+    def __init__(self, fs, p, mode):
+        super().__init__(p, mode)
         self.fs = fs
-        self.name = fs.canon(p)
-        self.f = builtins.open(p, mode, **kwds)
+        self.cname = fs.canon(p)
+        self.released = False
 
-    def write(self, s):
+    def write(self, b):
+        b = bytes(b)
+
         def full():
-            self.f.write(s)
-            self.f.flush()
-            return len(s)
+            return io.FileIO.write(self, b)
 
         def partial(ev):
-            n = int(len(s) * self.fs.fault.get('part', 0))
-            self.f.write(s[:n])
-            self.f.flush()
-            ev[2] = s[:n].encode('utf-8').hex()
-        return self.fs._event(['write', self.name, s.encode('utf-8').hex()], full, partial)
+            n = int(len(b) * self.fs.fault.get('part', 0))
+            if n:
+                io.FileIO.write(self, b[:n])
+            ev[2] = b[:n].hex()
+        return self.fs._event(['write', self.cname, b.hex()], full, partial)
 
     def close(self):
+        if self.released:
+            return None
+        self.released = True
         try:
-            return self.fs._event(['close', self.name], lambda: None)
+            return self.fs._event(['close', self.cname], lambda: None)
         finally:
-            self.f.close()
+            io.FileIO.close(self)      # a close that reports an error has released the descriptor all the same
+
+
+class InstrSnaps:
+    """crash points at the granularity of the byte code of frappy/persistent.py, whatever API the code uses for its file
+    operations: while active, the content of the persistent file is read (independent descriptor) before every instruction
+    executed in a frame of that file; `seen` keeps the sequence of distinct contents with the line where each was first met.
+    A process killed between two instructions leaves exactly one of these on disk."""
+
+    def __init__(self, fs, fname, off=False):
+        self.fs, self.fname, self.off = fs, fname, off
+        self.seen = []
+        self.path = None if off else os.path.join(fs.pdir, fs.tname)
+        self.key = 0
 
     def __enter__(self):
+        if not self.off:
+            self.prev = sys.gettrace()
+            sys.settrace(self._global)
         return self
 
     def __exit__(self, *a):
-        self.close()
+        if not self.off:
+            sys.settrace(self.prev)
+
+    def _global(self, frame, event, arg):
+        if frame.f_code.co_filename == self.fname:
+            frame.f_trace_opcodes = True
+            return self._local
+        return None
+
+    def _local(self, frame, event, arg):
+        try:
+            st = os.stat(self.path)
+            key = (st.st_ino, st.st_size, st.st_mtime_ns)
+        except OSError:
+            key = None
+        if key != self.key:      # the content is read only when inode, size or modification time have changed
+            self.key = key
+            c = self.fs.content(self.fs.tname)
+            if not self.seen or self.seen[-1][1] != c:
+                self.seen.append((frame.f_lineno, c))
+        return self._local
+
+
+BUFFERINGS = [None, None, None, None, [16, 1], [16, 1], [64, 8], [64, 8], [256, 64], [1, 1]]
+
+
+class _RecRaw(io.RawIOBase):
+    def __init__(self):
+        super().__init__()
+        self.chunks = []
+
+    def writable(self):
+        return True
+
+    def write(self, b):
+        self.chunks.append(bytes(b))
+        return len(b)
 
 
 # ----------------------------------------------------------------------------------------
@@ -342,6 +470,9 @@ def gen_val(rng, d, valid=True):
     return {n: gen_val(rng, s, valid) for n, s in d[1].items()}
 
 
+FLAG_SPELLINGS = {'on': ['on', 1, True], 'auto': ['auto', 2, 2.0], 'off': ['off', 0, False]}
+
+
 def gen_spec(rng, big):
     n = rng.choice([1, 2, 2, 3, 4] + ([6] if big else []))
     params = []
@@ -351,6 +482,14 @@ def gen_spec(rng, big):
         write = rng.random() < 0.5
         params.append({'name': 'p%d' % i, 'dt': d, 'flag': flag, 'write': write,
                        'readonly': (not write) and rng.random() < 0.6, 'default': gen_val(rng, d)})
+        if flag is not None:
+            # how the flag is written: name, number or bool in the class definition; in 15 % the class says something else
+            # and the configuration sets the property
+            if rng.random() < 0.15:
+                params[-1]['classflag'] = rng.choice(FLAG_SPELLINGS[rng.choice([k for k in FLAG_SPELLINGS if k != flag])])
+                params[-1]['cfgflag'] = rng.choice(FLAG_SPELLINGS[flag][:2])
+            else:
+                params[-1]['classflag'] = rng.choice(FLAG_SPELLINGS[flag])
     cfg = {}
     for p in params:
         if rng.random() < 0.3:
@@ -387,7 +526,8 @@ def make_class(spec):
         if p['flag'] is None:
             attrs[p['name']] = Parameter('', dt, default=default, readonly=p['readonly'])
         else:
-            attrs[p['name']] = PersistentParam('', dt, default=default, readonly=p['readonly'], persistent=p['flag'])
+            attrs[p['name']] = PersistentParam('', dt, default=default, readonly=p['readonly'],
+                                               persistent=p.get('classflag', p['flag']))
         if p['write']:
             def wfunc(self, value, _n=p['name']):
                 self.wlog.append([_n, repr(value)])
@@ -408,21 +548,28 @@ def make_class(spec):
 class Bench:
     """one scratch directory + FaultFS + patched module namespaces"""
 
-    def __init__(self):
+    def __init__(self, buf=None):
         import frappy.persistent as fp
         import frappy.modulebase as mb
         from frappy.lib import generalConfig
         self.fp, self.mb, self.gc = fp, mb, generalConfig
         self.root = tempfile.mkdtemp(prefix='verif-c17-')
-        self.fs = FaultFS(self.root)
+        self.fs = FaultFS(self.root, buf)
         self.saved = (fp.__dict__.get('open'), fp.os, mb.time, getattr(generalConfig, '_config', None))
         generalConfig.testinit(logdir=Path(self.root))
         fp.open = self.fs.open
         fp.os = self.fs
         mb.time = _Clock(self.saved[2])
+        # the same layer under every other way to the file system: the builtin open, io.open, os.rename / replace / remove /
+        # unlink as looked up in their modules (pathlib, shutil ... find them there); paths outside the scratch directory pass through
+        builtins.open = io.open = self.fs.open
+        os.rename = os.replace = self.fs.rename
+        os.remove = os.unlink = self.fs.remove
 
     def close(self):
         fp, mb = self.fp, self.mb
+        builtins.open = io.open = _open
+        os.rename, os.replace, os.remove, os.unlink = _rename, _replace, _remove, _unlink
         if self.saved[0] is None:
             fp.__dict__.pop('open', None)
         else:
@@ -432,16 +579,29 @@ class Bench:
         self.gc._config = self.saved[3]
         shutil.rmtree(self.root, ignore_errors=True)
 
-    def create(self, spec, fault=None):
+    def instr(self):
+        return InstrSnaps(self.fs, self.fp.__file__)
+
+    def create(self, spec, fault=None, trace=False):
         """-> (module or None, exception class name or None)"""
         cls = make_class(spec)
         cfg = {'description': ''}
         for p in spec['params']:
             if p['name'] in spec['cfg']:
                 cfg[p['name']] = {'value': to_py(p['dt'], spec['cfg'][p['name']])}
+            if 'cfgflag' in p:
+                cfg.setdefault(p['name'], {})['persistent'] = p['cfgflag']
         self.fs.reset(fault)
+        self.created_instr = []
         try:
-            m = cls('m', _Logger(), cfg, _Srv())
+            if trace:
+                with self.instr() as tr:
+                    try:
+                        m = cls('m', _Logger(), cfg, _Srv())
+                    finally:
+                        self.created_instr = tr.seen
+            else:
+                m = cls('m', _Logger(), cfg, _Srv())
         except Exception as e:  # pylint: disable=broad-except
             return None, type(e).__name__
         except RecursionError:
@@ -456,6 +616,14 @@ def values_of(m):
 
 def wd_of(m):
     return [[n, repr(v)] for n, v in m.writeDict.items()]
+
+
+def hooks_of(m):
+    """the parameters whose callback list holds the module's saveParameters (what `addCallback` registered and
+    `announceUpdate` calls), in the order of the parameters"""
+    return [n for n in m.parameters
+            if any(getattr(cb, '__name__', None) == 'saveParameters' and getattr(cb, '__self__', None) is m
+                   for cb, _ in m.paramCallbacks.get(n, ()))]
 
 
 def hexo(b):
@@ -475,6 +643,13 @@ def do_action(m, spec, act):
         m.loadParameters()
     elif a == 'factoryReset':
         m.factory_reset()
+    elif a == 'seterr':
+        # an update that carries no valid value: a read error, or a value the datatype refuses
+        if act.get('how') == 'invalid':
+            m.announceUpdate(act['name'], object())
+        else:
+            from frappy.errors import HardwareError
+            m.announceUpdate(act['name'], err=HardwareError('injected read error %s' % act.get('no', 0)))
 
 
 def step_record(bench, m, exc):
@@ -482,20 +657,32 @@ def step_record(bench, m, exc):
     t, tmp, listing = fs.state()
     return {'evs': [list(e) for e in fs.log], 'snaps': list(fs.snaps), 'raised': exc is not None, 'exc': exc,
             'values': values_of(m) if m is not None else None, 'writeDict': wd_of(m) if m is not None else None,
-            'writes': list(m.wlog) if m is not None else [], 'target': t, 'tmp': tmp, 'listing': listing}
+            'writes': list(m.wlog) if m is not None else [], 'target': t, 'tmp': tmp, 'listing': listing,
+            'hooks': hooks_of(m) if m is not None else None}
 
 
-def ser_chunks(data):
-    class Rec:
-        def __init__(self):
-            self.chunks = []
+def litter_listing(rec):
+    """the directory listing the litter monitor is to judge: when the remove of the temporary file was itself made to fail,
+    the temporary file cannot be expected to be gone and is left out (anything else in the directory still counts)"""
+    if any(e[0] == 'remove' and e[-1] == 'FAULT' for e in rec['evs']):
+        return [x for x in rec['listing'] if x != TMP]
+    return rec['listing']
 
-        def write(self, s):
-            self.chunks.append(s)
-    r = Rec()
-    json.dump(data, r, indent=2)
-    r.write('\n')
-    return r.chunks
+
+def ser_chunks(data, buf=None):
+    """the writes by which `json.dump(data, f, indent=2); f.write('\\n')` reaches the file descriptor when `f` is Python's
+    text file with the given buffering, computed without the code under test: -> list of bytes"""
+    raw = _RecRaw()
+    bs, chunk = buf if buf else (io.DEFAULT_BUFFER_SIZE, None)
+    f = io.TextIOWrapper(io.BufferedWriter(raw, bs), encoding='utf-8')
+    if chunk:
+        f._CHUNK_SIZE = chunk      # pylint: disable=protected-access
+    json.dump(data, f, indent=2)
+    f.write('\n')
+    f.flush()
+    chunks = list(raw.chunks)
+    f.close()
+    return chunks
 
 
 def export_data(m):
@@ -504,16 +691,17 @@ def export_data(m):
 
 def run_impl(spec, case, trials=True, crash_budget=None, rng=None):
     """runs one history; returns dict with steps, fork trials, restarts"""
-    bench = Bench()
+    bench = Bench(case.get('buf'))
     out = {'steps': [], 'trials': [], 'restarts': [], 'datas': [], 'objs': {}}
     try:
         fs = bench.fs
         init = case.get('file')
         fs.set_state(None if init is None else bytes.fromhex(init), None if case.get('stale') is None else bytes.fromhex(case['stale']))
         pre = fs.state()
-        m, exc = bench.create(spec, case.get('fault'))
+        m, exc = bench.create(spec, case.get('fault'), trace=True)
         rec = step_record(bench, m, exc)
         rec['pre'] = pre
+        rec['instr'] = bench.created_instr
         out['steps'].append(rec)
         if m is None:
             return out
@@ -523,45 +711,78 @@ def run_impl(spec, case, trials=True, crash_budget=None, rng=None):
         for act in case['acts']:
             pre = fs.state()
             believed = m.persistentData
+            pstate = {n: (p.value, p.readerror, p.timestamp) for n, p in m.parameters.items()}
+            wdstate = dict(m.writeDict)
+            callbacks = {n: list(cbs) for n, cbs in m.paramCallbacks.items()}
             m.wlog = []
             fs.reset(act.get('fault'))
             exc = None
-            try:
-                do_action(m, spec, act)
-            except Exception as e:  # pylint: disable=broad-except
-                exc = type(e).__name__
+            with bench.instr() as tr:
+                try:
+                    do_action(m, spec, act)
+                except Exception as e:  # pylint: disable=broad-except
+                    exc = type(e).__name__
             rec = step_record(bench, m, exc)
             rec['pre'] = pre
+            rec['instr'] = tr.seen
             rec['data'] = export_data(m)
             out['datas'].append(rec['data'])
             out['steps'].append(rec)
-            # ---- fork: the same save under every single fault, each followed by a healthy save
+            # ---- fork: the same step under every single fault, each followed by a healthy next save.  The state of the module
+            # (values, pending writes, persistentData, callback lists) and the disk are put back and the *action itself* is
+            # repeated - so the save is triggered the way the step triggered it (saveParameters(), or through the callbacks of
+            # announceUpdate for an update / writeInitParams / loadParameters / factory_reset) and that path meets every fault.
+            # The next save is the next trigger of the same kind: for an update of an `auto` parameter the same value announced
+            # again (as every poll does), otherwise an explicit saveParameters()
             if trials and act.get('fault') is None and rec['evs'] and not m.writeDict:
                 post = fs.state()
                 post_believed = m.persistentData
+                post_callbacks = m.paramCallbacks
                 nops = len(rec['evs'])
+                via = act['a']
+
+                def trigger(first):
+                    if first:
+                        for n, p in m.parameters.items():
+                            p.value, p.readerror, p.timestamp = pstate[n]
+                        m.writeDict.clear()
+                        m.writeDict.update(wdstate)
+                    if first or via == 'set':
+                        do_action(m, spec, act)
+                    else:
+                        m.saveParameters()
                 for k in range(nops):
-                    for part in ((0, 0.5) if rec['evs'][k][0] == 'write' else (0,)):
+                    # a write fails having written nothing / half of it / half of it and so does every later write (disk full)
+                    kind = rec['evs'][k][0]
+                    variants = [(0, False, False), (0.5, False, False), (0.5, True, False)] if kind == 'write' else [(0, False, False)]
+                    if kind != 'remove' and (kind != 'write' or k % 3 == 1):
+                        variants.append((0, False, True))      # ... and the remove of the clean-up fails as well
+                    for part, sticky, cleanup in variants:
                         fs.set_state(pre[0], pre[1])
                         m.persistentData = believed
-                        fs.reset({'idx': k, 'part': part})
+                        m.paramCallbacks = {n: list(cbs) for n, cbs in callbacks.items()}
+                        fs.reset({'idx': k, 'part': part, 'sticky': sticky, 'cleanup': cleanup})
                         e1 = None
-                        try:
-                            m.saveParameters()
-                        except Exception as e:  # pylint: disable=broad-except
-                            e1 = type(e).__name__
+                        # instruction-level crash points: for the plain variant of each fault (they cost a traced run)
+                        with (bench.instr() if (part, sticky, cleanup) == variants[0] else InstrSnaps(None, None, off=True)) as tr:
+                            try:
+                                trigger(True)
+                            except Exception as e:  # pylint: disable=broad-except
+                                e1 = type(e).__name__
                         t1 = step_record(bench, m, e1)
+                        t1['instr'] = tr.seen
                         fs.reset(None)
                         e2 = None
                         try:
-                            m.saveParameters()
+                            trigger(False)
                         except Exception as e:  # pylint: disable=broad-except
                             e2 = type(e).__name__
                         t2 = step_record(bench, m, e2)
-                        out['trials'].append({'step': len(out['steps']) - 1, 'k': k, 'part': part, 'pre': pre,
+                        out['trials'].append({'step': len(out['steps']) - 1, 'k': k, 'part': part, 'sticky': sticky, 'cleanup': cleanup, 'pre': pre, 'via': via,
                                               'first': t1, 'second': t2, 'data': rec['data']})
                 fs.set_state(post[0], post[1])
                 m.persistentData = post_believed
+                m.paramCallbacks = post_callbacks
         return out
     finally:
         bench.close()
@@ -577,8 +798,13 @@ def restart(spec, target, tmp):
         rec = step_record(bench, m, exc)
         if m is not None:
             rec['hasWrite'] = {n: hasattr(m, 'write_' + n) for n in m.parameters}
-            rec['persistent'] = {n: bool(getattr(p, 'persistent', False)) for n, p in m.parameters.items()}
-            rec['auto'] = {n: getattr(p, 'persistent', False) == 'auto' for n, p in m.parameters.items()}
+            # what the model and the judges are told about the flags comes from the declaration (`flag` = what the class
+            # definition and the configuration, in whatever spelling, mean), not from what the code made of it
+            declared = {p['name']: p['flag'] for p in spec['params']}
+            rec['persistent'] = {n: declared[n] in ('on', 'auto') if n in declared else bool(getattr(p, 'persistent', False))
+                                 for n, p in m.parameters.items()}
+            rec['auto'] = {n: declared[n] == 'auto' if n in declared else getattr(p, 'persistent', False) == 'auto'
+                           for n, p in m.parameters.items()}
             rec['module'] = m
         return rec
     finally:
@@ -649,6 +875,7 @@ class Tables:
         self.parse = {}
         self.ser = {}
         self.imp = {}
+        self.buf = None        # buffering of the file object of this case (decides the chunks in which a text reaches the file)
 
     def add_val(self, n, v):
         r = repr(v)
@@ -684,8 +911,8 @@ class Tables:
     def add_data(self, data):
         key = json.dumps(data, sort_keys=False)
         if key not in self.ser:
-            self.ser[key] = (data, ser_chunks(data))
-            self.add_file(''.join(self.ser[key][1]).encode('utf-8'))
+            self.ser[key] = (data, ser_chunks(data, self.buf))
+            self.add_file(b''.join(self.ser[key][1]))
 
     def close(self):
         """close the value sets under validate and export/import; returns the tables object for the driver"""
@@ -739,7 +966,7 @@ class Tables:
                     self.laws['codec.broken'].append([n, r, back])
         return {
             'parse': [{'hex': h, 'dec': top(dec) if ok else None} for h, (ok, dec) in self.parse.items()],
-            'ser': [{'dict': top(d), 'chunks': ch} for d, ch in self.ser.values()],
+            'ser': [{'dict': top(d), 'chunks': [c.hex() for c in ch]} for d, ch in self.ser.values()],
             'imp': [{'name': n, 'json': tr(j), 'val': r} for (n, _), (j, r) in self.imp.items()],
             'exp': exp, 'wval': wval}
 
@@ -748,14 +975,25 @@ class Tables:
 # histories
 # ----------------------------------------------------------------------------------------
 def gen_case(rng, spec, big):
+    """a history without faults (`place_faults` adds them)"""
     acts = []
     names = [p['name'] for p in spec['params']]
     pers = [p for p in spec['params'] if p['flag'] in ('on', 'auto')]
+    if rng.random() < 0.7:
+        # what the poller does first; from then on no configured write is pending and saves are not deferred
+        acts.append({'a': 'writeInit'})
     for _ in range(rng.randint(2, 9 if big else 6)):
         r = rng.random()
-        if r < 0.45 and names:
+        if r < 0.41 and names:
             p = rng.choice(pers or spec['params'])
             act = {'a': 'set', 'name': p['name'], 'val': gen_val(rng, p['dt'], valid=rng.random() < 0.85)}
+            if p['flag'] == 'on' and rng.random() < 0.5:
+                # what a module with `persistent='on'` parameters does itself: save explicitly after the change
+                acts.append(act)
+                act = {'a': 'save'}
+        elif r < 0.48 and names:
+            act = {'a': 'seterr', 'name': rng.choice(pers or spec['params'])['name'], 'how': rng.choice(['err', 'err', 'invalid']),
+                   'no': rng.randrange(2)}
         elif r < 0.65:
             act = {'a': 'save'}
         elif r < 0.8:
@@ -764,20 +1002,42 @@ def gen_case(rng, spec, big):
             act = {'a': 'load'}
         else:
             act = {'a': 'factoryReset'}
-        if rng.random() < 0.25:
-            act['fault'] = {'idx': rng.choice([0, 1, 2, 3, 5, 8, 13, 21, 34, rng.randint(0, 60)]), 'part': rng.choice([0, 0.5, 1])}
         acts.append(act)
-    case = {'acts': acts, 'file': None, 'stale': None, 'fault': None}
+    case = {'acts': acts, 'file': None, 'stale': None, 'fault': None, 'buf': rng.choice(BUFFERINGS)}
     if rng.random() < 0.15:
-        case['fault'] = {'idx': rng.randint(0, 12), 'part': rng.choice([0, 0.5])}
+        case['fault'] = {'idx': rng.randint(0, 12), 'part': rng.choice([0, 0.5]), 'sticky': rng.random() < 0.3, 'cleanup': rng.random() < 0.2}
     if rng.random() < 0.25:
         case['stale'] = rng.choice([b'', b'{\n  "p0": 1', b'\xff\xfe garbage']).hex()
     return case
 
 
-def with_fault(act):
-    f = act.get('fault')
-    return None if f is None else {'idx': f['idx'], 'part': f.get('parthex', '')}
+def place_faults(rng, spec, case):
+    """decides which actions of the history meet an I/O error, and where.  A fault-free run of the history tells which steps
+    save and with how many operations: 35 % of those get a fault aimed at the open, the first / last write, the close, the rename,
+    the remove or a random operation of that very save (a step that does not save: 8 %, at a small index - it can only fire if the
+    step saves after all because of an earlier fault).  What follows a failed save decides whether it "is attempted again by the
+    next save instead of being considered done": after a failed *automatic* save (update of an `auto` parameter; the error is
+    swallowed by announceUpdate) the history goes on, in 70 % of the cases, with 1-3 further updates of that same parameter and
+    nothing else (but, sometimes, an update without valid value) - no explicit saveParameters(), no other parameter"""
+    dry = run_impl(spec, dict(case, fault=None), trials=False)['steps']
+    if dry[0]['values'] is None:
+        return
+    out = []
+    for i, act in enumerate(case['acts']):
+        out.append(act)
+        n = len(dry[i + 1]['evs']) if i + 1 < len(dry) else 0
+        if n and rng.random() < 0.35:
+            act['fault'] = {'idx': rng.choice([0, 1, n - 4, n - 3, n - 2, n - 1, rng.randrange(n)]) % n, 'part': rng.choice([0, 0.5, 1]),
+                            'sticky': rng.random() < 0.3, 'cleanup': rng.random() < 0.2}
+            if act['a'] == 'set' and rng.random() < 0.7:
+                p = next(x for x in spec['params'] if x['name'] == act['name'])
+                for _ in range(rng.randint(1, 3)):
+                    if rng.random() < 0.2:
+                        out.append({'a': 'seterr', 'name': p['name'], 'how': rng.choice(['err', 'invalid']), 'no': rng.randrange(2)})
+                    out.append({'a': 'set', 'name': p['name'], 'val': gen_val(rng, p['dt'], valid=rng.random() < 0.85)})
+        elif not n and rng.random() < 0.08:
+            act['fault'] = {'idx': rng.choice([0, 1, 2, 3, 5, 8]), 'part': rng.choice([0, 0.5, 1])}
+    case['acts'] = out
 
 
 def model_request(spec, case, ref, impl, tables):
@@ -787,11 +1047,17 @@ def model_request(spec, case, ref, impl, tables):
     def fault_json(f, rec):
         if f is None:
             return None
-        part = ''
-        for e in rec['evs']:
+        part, after = '', []
+        for k, e in enumerate(rec['evs']):
             if e[-1] == 'FAULT' and e[0] == 'write':
                 part = e[2]
-        return {'idx': f['idx'], 'part': part}
+                # what the file object still wrote (or tried to) when it was closed on the way out: an input of the model, like `part`
+                for e2 in rec['evs'][k + 1:]:
+                    if e2[0] != 'write':
+                        break
+                    after.append([e2[2], e2[-1] == 'FAULT'])
+                break
+        return {'idx': f['idx'], 'part': part, 'after': after, 'cleanup': bool(f.get('cleanup'))}
     given = {p['name']: p['name'] in spec['cfg'] for p in spec['params']}
     userwrite = {p['name']: p['write'] for p in spec['params']}
     dts = {p['name']: p['dt'] for p in spec['params']}
@@ -808,6 +1074,8 @@ def model_request(spec, case, ref, impl, tables):
             p = next(x for x in spec['params'] if x['name'] == act['name'])
             dt = ref['module'].parameters[act['name']].datatype
             a['val'] = repr(dt(to_py(p['dt'], act['val'])))
+        elif act['a'] == 'seterr':
+            a['name'] = act['name']
         acts.append(a)
     return {'p': 'C17', 'k': 'hist', 'tables': tables, 'params': params, 'wd0': wd0, 'file': case.get('file'),
             'stale': case.get('stale'), 'fault': fault_json(case.get('fault'), steps[0]), 'acts': acts}
@@ -815,11 +1083,11 @@ def model_request(spec, case, ref, impl, tables):
 
 def obs_step(rec):
     return {'evs': rec['evs'], 'writes': rec['writes'], 'raised': rec['raised'], 'values': rec['values'],
-            'writeDict': rec['writeDict'], 'target': hexo(rec['target']), 'tmp': hexo(rec['tmp'])}
+            'writeDict': rec['writeDict'], 'hooks': rec['hooks'], 'target': hexo(rec['target']), 'tmp': hexo(rec['tmp'])}
 
 
 def new_bytes(data):
-    return ''.join(ser_chunks(data)).encode('utf-8')
+    return b''.join(ser_chunks(data))
 
 
 def nongiven_saved(spec, ref, values):
@@ -846,6 +1114,7 @@ def history_tables(spec, case, ref, impl):
     """oracle tables (json, datatypes) covering every value and file content of one history"""
     steps = impl['steps']
     tb = Tables(spec, ref)
+    tb.buf = case.get('buf')
     for n, v in ref['module'].parameters.items():
         tb.add_val(n, v.value)
     if case.get('file') is not None:
@@ -941,7 +1210,7 @@ def judge_failed_startup(ctx, res, spec, case, ref, first, full):
                                       'impl': {k: got[k] for k in keys}})
     reqs = [{'p': 'C17', 'k': 'judge_snapshots', 'old': hexo(first['pre'][0]), 'new': new.hex(),
              'snaps': [hexo(s[0]) for s in first['snaps']]},
-            {'p': 'C17', 'k': 'judge_litter', 'target': TARGET, 'listing': first['listing']}]
+            {'p': 'C17', 'k': 'judge_litter', 'target': TARGET, 'listing': litter_listing(first)}]
     again = restart(spec, first['target'], first['tmp'])
     if again['values'] is None:
         res.violations.append({'sig': 'C17:startup-aborted-after-crash:' + str(again['exc']),
@@ -1006,7 +1275,16 @@ def check_case(ctx, res, spec, case, quick_crash=3, kind='history'):
                          'snaps': [hexo(s[0]) for s in rec['snaps']]})
             tags.append(('snap', ('step', i)))
             res.traces += 1
-            reqs.append({'p': 'C17', 'k': 'judge_litter', 'target': TARGET, 'listing': rec['listing']})
+            reqs.append({'p': 'C17', 'k': 'judge_snapshots', 'old': hexo(rec['pre'][0]), 'new': new.hex(),
+                         'snaps': [hexo(c) for _, c in rec.get('instr', [])]})
+            tags.append(('instr', ('step', i)))
+        elif len(rec.get('instr', [])) > 1:
+            # no operation was seen by the file layer, and yet the file changed while code of persistent.py was running
+            reqs.append({'p': 'C17', 'k': 'judge_snapshots', 'old': hexo(rec['pre'][0]), 'new': new_bytes(rec['data']).hex(),
+                         'snaps': [hexo(c) for _, c in rec['instr']]})
+            tags.append(('instr', ('step', i)))
+            res.count('instr.change-without-logged-operation')
+            reqs.append({'p': 'C17', 'k': 'judge_litter', 'target': TARGET, 'listing': litter_listing(rec)})
             tags.append(('litter', ('step', i)))
     # ---- fork trials
     for j, t in enumerate(impl['trials']):
@@ -1014,13 +1292,45 @@ def check_case(ctx, res, spec, case, quick_crash=3, kind='history'):
         reqs.append({'p': 'C17', 'k': 'judge_snapshots', 'old': hexo(t['pre'][0]), 'new': new.hex(),
                      'snaps': [hexo(s[0]) for s in t['first']['snaps']]})
         tags.append(('snap', ('trial', j)))
-        reqs.append({'p': 'C17', 'k': 'judge_litter', 'target': TARGET, 'listing': t['first']['listing']})
+        reqs.append({'p': 'C17', 'k': 'judge_snapshots', 'old': hexo(t['pre'][0]), 'new': new.hex(),
+                     'snaps': [hexo(c) for _, c in t['first'].get('instr', [])]})
+        tags.append(('instr', ('trial', j)))
+        reqs.append({'p': 'C17', 'k': 'judge_litter', 'target': TARGET, 'listing': litter_listing(t['first'])})
         tags.append(('litter', ('trial', j)))
         reqs.append({'p': 'C17', 'k': 'judge_retry', 'new': new.hex(), 'mid': hexo(t['first']['target']),
                      'fin': hexo(t['second']['target']), 'ops2': len(t['second']['evs'])})
         tags.append(('retry', ('trial', j)))
         res.traces += 2
-        res.count('fault.at.' + t['first']['evs'][t['k']][0] if t['k'] < len(t['first']['evs']) else 'fault.unreached')
+        if t['k'] == 0 and not t.get('cleanup'):
+            res.count('fork.via-' + str(t.get('via')))
+        res.count('fault.at.' + t['first']['evs'][t['k']][0] + ('.disk-full' if t.get('sticky') else '') + ('.and-cleanup' if t.get('cleanup') else '')
+                  if t['k'] < len(t['first']['evs']) else 'fault.unreached')
+    # ---- "a save that failed is attempted again by the next save" along the history itself: after a step in which a save hit the
+    # injected fault and did not get the snapshot onto the disk, the next step that is a save by the documented triggers
+    # (saveParameters(), or an update of an `auto` parameter, undisturbed, no write pending) must work again
+    flags = {p['name']: p['flag'] for p in spec['params']}
+    failed_at = None
+    for i, rec in enumerate(steps):
+        if i == 0:
+            continue
+        act = case['acts'][i - 1]
+        newb = new_bytes(rec['data'])
+        due = (act.get('fault') is None and not steps[i - 1]['writeDict'] and not rec['raised']
+               and (act['a'] == 'save' or (act['a'] == 'set' and flags.get(act['name']) == 'auto')))
+        if failed_at is not None and due:
+            reqs.append({'p': 'C17', 'k': 'judge_retry', 'new': newb.hex(), 'mid': hexo(rec['pre'][0]),
+                         'fin': hexo(rec['target']), 'ops2': len(rec['evs'])})
+            tags.append(('retry-line', (failed_at, i)))
+            res.traces += 1
+            res.count('retry.in-history.via-' + act['a'])
+            failed_at = None
+        fired = next((e for e in rec['evs'] if e[-1] == 'FAULT'), None)
+        if fired is not None:
+            res.count('fault.in-history.at.' + fired[0] + ('.swallowed' if not rec['raised'] else ''))
+            if rec['target'] != newb:
+                failed_at = i
+        elif rec['evs'] and rec['target'] == newb:
+            failed_at = None
     # ---- restarts: after every clean save (round trip) and from crash snapshots
     cache = {}
 
@@ -1030,7 +1340,6 @@ def check_case(ctx, res, spec, case, quick_crash=3, kind='history'):
             r = restart(spec, target, tmp)
             cache[key] = r
         return cache[key]
-    flags = {p['name']: p['flag'] for p in spec['params']}
     for i, rec in enumerate(steps):
         if not rec['evs']:
             # a step that is a save by the documented triggers (saveParameters(), or a change of an `auto` parameter, while
@@ -1101,6 +1410,13 @@ def check_case(ctx, res, spec, case, quick_crash=3, kind='history'):
             res.violations.append({'sig': sig, 'what': f'after operation {a["bad"]} ({rec["evs"][a["bad"]][:2]}) of a save the '
                                    f'persistent file holds neither the old nor the new snapshot: {snap[:80]!r}',
                                    'case': dict(full, where=where)})
+        elif tag == 'instr' and a['bad'] is not None:
+            rec = steps[where[1]] if where[0] == 'step' else impl['trials'][where[1]]['first']
+            line, snap = rec['instr'][a['bad']]
+            res.violations.append({'sig': 'C17:file-empty' if snap == b'' else 'C17:file-partial-or-foreign',
+                                   'what': f'between two instructions of frappy/persistent.py (line {line}) the persistent file holds '
+                                           f'neither the old nor the new snapshot: {(snap or b"<no file>")[:80]!r}',
+                                   'case': dict(full, where=where)})
         elif tag == 'litter' and not a['ok']:
             rec = steps[where[1]] if where[0] == 'step' else impl['trials'][where[1]]['first']
             res.violations.append({'sig': 'C17:tmp-left-behind', 'what': f'after the save returned the directory holds {rec["listing"]}',
@@ -1108,10 +1424,19 @@ def check_case(ctx, res, spec, case, quick_crash=3, kind='history'):
         elif tag == 'retry' and not a['ok']:
             t = impl['trials'][where[1]]
             res.violations.append({'sig': 'C17:failed-save-not-retried',
-                                   'what': f'save failed with {t["first"]["exc"]} at operation {t["k"]} '
-                                           f'({t["first"]["evs"][min(t["k"], len(t["first"]["evs"]) - 1)][:2]}); the next save performed '
+                                   'what': f'save ({ {"set": "update of an auto parameter", "save": "saveParameters()", None: "saveParameters()"}.get(t.get("via"), "inside " + str(t.get("via")))}) failed '
+                                           f'with {t["first"]["exc"] or "an error swallowed by announceUpdate"} at operation {t["k"]} '
+                                           f'({(t["first"]["evs"] or [["?"]])[min(t["k"], len(t["first"]["evs"]) - 1)][:2]}); the next one performed '
                                            f'{len(t["second"]["evs"])} file operations and the file still holds the old snapshot',
                                    'case': dict(full, where=where)})
+        elif tag == 'retry-line' and not a['ok']:
+            j, i = where
+            act = case['acts'][i - 1]
+            fired = next((e for e in steps[j]['evs'] if e[-1] == 'FAULT'), ['?'])
+            res.violations.append({'sig': 'C17:failed-save-not-retried',
+                                   'what': f'the save of step {j} ({case["acts"][j - 1]["a"]}) failed at its {fired[0]}; the next save, step {i} '
+                                           f'({act["a"]}{" " + act["name"] if "name" in act else ""}), performed {len(steps[i]["evs"])} file '
+                                           f'operations and the file does not hold the current values', 'case': dict(full, where=['step', i])})
         elif tag == 'roundtrip' and not a['ok']:
             res.violations.append({'sig': 'C17:roundtrip', 'what': f'values restored after save differ from the values saved at step {where[1]}',
                                    'case': dict(full, where=where)})
@@ -1375,10 +1700,15 @@ def run(ctx):
     res = Result()
     res.rule = ('histories: generated module classes (1..6 parameters over float/int/scaled/bool/enum/string/blob/array/tuple/struct, '
                 'flags on/auto/off/none, with and without write methods, configured values) x histories of set/save/writeInit/load/'
-                'factoryReset with faults kept in the history; at every save of the history: an injected OSError at EVERY file operation '
-                '(writes also with a partial effect) each followed by a healthy save, a directory snapshot after EVERY operation judged by '
-                'the Lean monitor, restarts from crash snapshots; non-trivial = at least two saves that touched the disk and a fork of fault '
-                'trials.  corruptions: truncation at every byte (files <= 400 B), bit flips, type changes, unknown/missing keys, bad '
+                'factoryReset, persistent flag in any spelling / set in the configuration; the file object is Python\'s buffered text file '
+                '(default buffering in 40 %, small buffers otherwise), operations = open / write / close on its raw file, rename, remove; '
+                'faults placed with the help of a fault-free run (35 % of the saving steps: open, first / last write, close, rename, remove, '
+                'random; 30 % of them as disk-full: later writes fail too), a failed automatic save is followed in 70 % by further updates '
+                'of the same parameter and nothing else; at every undisturbed saving step of the history: an injected OSError at EVERY '
+                'operation (writes also with a partial effect and as disk-full), through the trigger of the step (saveParameters() or the '
+                'update of the auto parameter), each followed by the next healthy trigger; a directory snapshot after EVERY operation '
+                'judged by the Lean monitor, restarts from crash snapshots, retry judged along the history as well; non-trivial = at least '
+                'two saves that touched the disk and a fork of fault trials.  corruptions: truncation at every byte (files <= 400 B), bit flips, type changes, unknown/missing keys, bad '
                 'entries, each met by a restart and by loadParameters() of a running module (quick tier: 30 % of the truncations and bit flips '
                 'for the latter); non-trivial = readable dictionary that '
                 'changes some restored value.  40 % of the histories start from the file of an earlier run, 60 % of those written under '
@@ -1409,6 +1739,7 @@ def run(ctx):
                 if rng.random() < 0.5:
                     # the documented reaction to a power cycle found at the first poll: reload right after start-up
                     case['acts'].insert(rng.choice([0, 0, 1]), {'a': 'load'})
+        place_faults(rng, spec, case)
         if case.get('fault') is not None:
             # a fault in the save of start-up: aim at every kind of operation (open, first / last write, close, rename, remove)
             n = len(run_impl(spec, dict(case, fault=None, acts=[]), trials=False)['steps'][0]['evs'])
